@@ -755,7 +755,7 @@ func (b *base) run(mode string, doc any) (out any, stage string, err error) {
 func applyEdit(doc any, e Edit) (any, error) {
 	switch e.Op {
 	case "set":
-		if _, ok := jsontree.Get(doc, e.Ptr); !ok && e.Kind != kRegime {
+		if _, ok := jsontree.Get(doc, e.Ptr); !ok && e.Kind != kRegime && e.Kind != kCtryTax {
 			return nil, fmt.Errorf("no node %s", e.Ptr)
 		}
 		return jsontree.Set(doc, e.Ptr, e.New)
@@ -842,15 +842,21 @@ func positions(doc any) []Pos {
 	}
 	m, _ := doc.(map[string]any)
 	sch := shortSchema(doc)
-	if m != nil && strings.HasPrefix(sch, "bill/") {
+	if m != nil && (strings.HasPrefix(sch, "bill/") || sch == "org/party") {
 		if _, ok := m["$regime"]; !ok {
 			out = append(out, Pos{Op: "set", Ptr: "/$regime", Ref: Ref{Kind: kRegime, Root: true}})
 		}
+	}
+	if m != nil && strings.HasPrefix(sch, "bill/") {
 		out = append(out, Pos{Op: "append", Ptr: "/$tags", Ref: Ref{Kind: kTag, Root: true}})
 		out = append(out, Pos{Op: "append", Ptr: "/$addons", Ref: Ref{Kind: kAddon, Root: true}})
 	}
+	// a country override on every combo without one;
 	// one more extension: on every existing map, and on every combo without one
 	for _, r := range rs {
+		if r.Kind == kCat && r.Country == "" {
+			out = append(out, Pos{Op: "set", Ptr: strings.TrimSuffix(r.Ptr, "/cat") + "/country", Ref: Ref{Kind: kCtryTax, InCombo: true}})
+		}
 		if r.Kind == kCat {
 			p := strings.TrimSuffix(r.Ptr, "/cat") + "/ext"
 			if _, ok := extMaps[p]; !ok {
@@ -1358,7 +1364,7 @@ func init() {
 	vh.Describe(
 		"Cases are the 83 example documents with references replaced. Reference positions are found by walking the JSON tree: $regime, $addons[*], $tags[*], "+
 			"cat / rate / country of every tax combo, every key and every value of every `ext` map wherever it stands, every currency (document, exchange rates, items, ...) and every country "+
-			"(addresses, identities, tax_id, combos, item origin); plus insert positions (a tag, an addon, a missing $regime, one more extension on every combo and ext map). "+
+			"(addresses, identities, tax_id, combos, item origin); plus insert positions (a tag, an addon, a missing $regime, a country override on every combo, one more extension on every combo and ext map). "+
 			"`single` crosses every position with (a) other values the published files define for that kind (a seed-dependent sample in the quick tier, all of them in the thorough tier) and "+
 			"(b) undefined ones: one-character near misses of defined values, countries without a regime, keys of other regimes / addons, malformed and random well-formed keys / codes; "+
 			"`double` draws two replacements at random (half from those lists, half free strings). Two modes: `build` edits the example source and envelopes (calculates) it before validating; "+
